@@ -9,6 +9,7 @@ import SfntV.Model.CffDict
 import SfntV.Model.CffCharset
 import SfntV.Model.CffFdselect
 import SfntV.Model.CffEncoding
+import SfntV.Model.CffRead
 
 namespace SfntV.Cff.Spec
 open SfntV SfntV.Cff
@@ -196,11 +197,20 @@ def readPrivate (std custom : Array String) (data : Bytes) (d : Dict) : Option P
     blueScale := ← Dict.num pd 3081 (Dec.norm ⟨false, 39625, -6⟩),
     stdHW := ← Dict.num pd 10 (Dec.ofInt 0), stdVW := ← Dict.num pd 11 (Dec.ofInt 0) }
 
+/-- "Appendix B: Predefined Encodings" (Standard, Expert): the glyph whose name the table gives
+for the code; the tables are regenerated from the sources as name → code lists -/
+def predefinedEncoding (tab : List (String × Nat)) (names : List String) : List Nat :=
+  (List.range 256).map fun c =>
+    match (names.zipIdx.filter fun (ng : String × Nat) => tab.lookup ng.1 = some c).getLast? with
+    | some (_, g) => g
+    | none => 0
+
 /-- "Header: Card8 major, Card8 minor, Card8 hdrSize, OffSize offSize.  […] Name INDEX, Top DICT
 INDEX, String INDEX, Global Subr INDEX follow the header in this order."  Then the Top DICT
 operators CharStrings (17), charset (15), ROS (12 30), FDArray (12 36), FDSelect (12 37),
 Private (18) locate the other sections by absolute offsets. -/
-def readFont (std : Array String) (data : Bytes) : Option FontSummary := do
+def readFont (T : Tables) (data : Bytes) : Option FontSummary := do
+  let std := T.std
   let major ← specNum data 0 1
   let hdrSize ← specNum data 2 1
   let offSize ← specNum data 3 1
@@ -224,9 +234,13 @@ def readFont (std : Array String) (data : Bytes) : Option FontSummary := do
   let nGlyphs := charStrings.length
   if nGlyphs = 0 then none
   let charsetOff ← Dict.int top 15 0
-  -- offsets 0, 1, 2 denote the predefined charsets, which the writer under test never uses
-  if charsetOff ≤ 2 then none
-  let charset ← specCharset data charsetOff.toNat nGlyphs
+  let isCID0 := (Dict.get top 3102).isSome
+  -- "Appendix C: Predefined Charsets": offsets 0, 1, 2 denote ISOAdobe, Expert, ExpertSubset
+  let charset ← (if ¬ isCID0 ∧ 0 ≤ charsetOff ∧ charsetOff ≤ 2 then do
+      let tab := if charsetOff = 0 then T.isoAdobe else if charsetOff = 1 then T.expert else T.expertSubset
+      if nGlyphs > tab.length then none
+      (tab.take nGlyphs).mapM fun nm => std.toList.idxOf? nm
+    else specCharset data charsetOff.toNat nGlyphs)
   let strs ← [0, 1, 3072, 2, 3, 4].mapM (Dict.str top)
   let isCID := (Dict.get top 3102).isSome
   let (ros, fds, privs, gnames, fdMats) ← (if isCID then do
@@ -255,7 +269,9 @@ def readFont (std : Array String) (data : Bytes) : Option FontSummary := do
     | some d => pure (Dec.add p.nominalWidth (Dec.ofFixed d))
   -- "Encoding: number — encoding offset (0 = Standard, 1 = Expert)"; custom encodings only
   let encOff ← Dict.int top 16 0
-  let encoding ← (if isCID ∨ encOff ≤ 1 then pure none
+  let encoding ← (if isCID then pure none
+    else if encOff = 0 then pure (some (predefinedEncoding T.standardEncRev (gnames.getD [])))
+    else if encOff = 1 then pure (some (predefinedEncoding T.expertEnc (gnames.getD [])))
     else (specEncoding data encOff.toNat charset).map some : Option (Option (List Nat)))
   pure {
     italicAngle := ← Dict.num top 3074 (Dec.ofInt 0),
